@@ -22,7 +22,10 @@ use crate::utils::clipping::bbox_own_areas::{
 };
 use crate::voting::Voting;
 use rand::Rng;
+#[cfg(not(similari_verif))]
 use std::sync::{Arc, RwLock, RwLockReadGuard, RwLockWriteGuard};
+#[cfg(similari_verif)]
+use crate::verif::sync::{Arc, RwLock, RwLockReadGuard, RwLockWriteGuard};
 
 // /// Easy to use Visual SORT tracker implementation
 // ///
